@@ -157,7 +157,8 @@ def variants(kind, inp):
 
 def alphabet(kind, name=""):
     if name.endswith("(y)"):     # label inputs: one column, no remembered names; only the number of observations matters
-        return [{"frame": f, "rows": r, "width": 1, "names": "a" if f else "-"} for f in (False, True) for r in (1, 2)]
+        return ([{"frame": f, "rows": r, "width": 1, "names": "a" if f else "-"} for f in (False, True) for r in (1, 2)]
+                + [{"frame": False, "rows": 1, "width": 2, "names": "-"}, {"frame": True, "rows": 1, "width": 2, "names": "a,b"}])   # several labels laid out as ONE row
     out = []
     for rows in ((1, 2) if kind == "stream" else (1, 3)):
         for w in (1, 2, 3):
